@@ -11,7 +11,7 @@
    Still open: that in_D is preserved, and that every legal move of a position in D passes refines_b
    (makemove_refines_statement). *)
 From Coq Require Import NArith ZArith List Bool.
-From Rawr Require Import Consts Bits Magic Position MoveGen MakeMove MakeStages Rules Abs AbsFacts MakeFacts MakeAbs CastleFacts CastleAbs GenSane.
+From Rawr Require Import Consts Bits Magic Position MoveGen MakeMove MakeStages Rules Abs AbsFacts MakeFacts MakeAbs CastleFacts CastleAbs GenSane Closure.
 Import ListNotations.
 Local Open Scope N_scope.
 
@@ -87,6 +87,22 @@ Proof. repeat split; vm_compute; reflexivity. Qed.
 Example C02_good_example : good_pos_b startpos = true /\ good_pos_b (after castle_line) = true.
 Proof. split; vm_compute; reflexivity. Qed.
 
+(* ---- closure: the invariant under which the refinement holds (Good, CastleGood, KeyGood, one enemy king, the enemy's
+   castling rights backed by rook and king, the side not to move not in check -- `Closure.Inv`, executable form `inv_b`)
+   is kept by every generated move that does not leave the mover's own king attacked.  So "the result is always a
+   structurally valid position in which the side that just moved is not in check" holds after every generated legal
+   move, and the refinement holds along every sequence of them. *)
+Theorem C02_invariant_is_kept : forall p m, Inv p -> In m (legal_moves p) ->
+  in_check_them (makemove true p m) = false -> Inv (makemove true p m).
+Proof. exact inv_step. Qed.
+Theorem C02_executable_invariant_sound : forall p, inv_b p = true -> Inv p.
+Proof. exact inv_b_sound. Qed.
+Theorem C02_every_sequence_refines : forall ms p, Inv p -> legal_seq p ms ->
+  Inv (fold_left (makemove true) ms p) /\ abs_state (fold_left (makemove true) ms p) = spec_run p ms (abs_state p).
+Proof. intros ms p I H. split; [exact (inv_run ms p I H)|exact (run_refines ms p I H)]. Qed.
+Example C02_invariant_startpos : inv_b startpos = true /\ inv_b (after castle_line) = true.
+Proof. split; vm_compute; reflexivity. Qed.
+
 Print Assumptions C02_makenull_spec.
 Print Assumptions C02_makemove_refines_noncastling.
 Print Assumptions C02_makemove_is_its_stages.
@@ -94,3 +110,6 @@ Print Assumptions C02_makemove_refines_castling.
 Print Assumptions C02_makemove_refines.
 Print Assumptions C02_every_generated_move_refines.
 Print Assumptions C02_flip_keeps_board.
+Print Assumptions C02_invariant_is_kept.
+Print Assumptions C02_executable_invariant_sound.
+Print Assumptions C02_every_sequence_refines.
